@@ -140,7 +140,7 @@ func trim(s string) string {
 // by calling Explore with increasing bounds).
 type Explorer struct {
 	Bound      int
-	NewBodies  func() (*Sched, []func()) // fresh scheduler + fresh thread bodies (fresh shared objects) per execution
+	NewBodies  func() (*Sched, []func())    // fresh scheduler + fresh thread bodies (fresh shared objects) per execution
 	Check      func(x *Exec, s *Sched) bool // false = stop exploring (violation found)
 	Executions int
 	MaxPoints  int
